@@ -79,7 +79,29 @@ def kind_of(engine) -> str:
 
 
 # names that no reasonable reading makes "known" (no case variants, no class names, no None)
-BAD = {"bad:foo": "foo", "bad:jax": "jax", "bad:sympy": "sympy", "bad:empty": "", "bad:tuple": ("numpy",), "bad:int": 3}
+BAD = {"bad:foo": "foo", "bad:jax": "jax", "bad:sympy": "sympy", "bad:empty": "", "bad:tuple": ("numpy",), "bad:int": 3,
+       "bad:np": "np"}
+KNOWN = {"numpy": ("sym_metanet.engines.numpy", "Engine"), "casadi": ("sym_metanet.engines.casadi", "Engine")}
+
+
+def make_engine_x():
+    """A caller-defined engine: the NumPy engine with a *distinguishable* link-flow law (any
+    EngineBase subclass is a legitimate explicit engine).  Used to tell 'computed with the
+    engine that was passed' from 'computed earlier with another engine and kept'."""
+    from sym_metanet.engines.numpy import Engine as NE
+    from sym_metanet.engines.numpy import LinksEngine
+
+    class LinksX(LinksEngine):
+        @staticmethod
+        def get_flow(rho, v, lanes):
+            return rho * v * lanes * (1.0 + 2.0**-20)
+
+    class EngineX(NE):
+        @property
+        def links(self):
+            return LinksX
+
+    return EngineX()
 
 
 class Session:
@@ -128,8 +150,11 @@ class Session:
                 kw["sym_type"] = parts[2]
             if parts[1] == "numpy" and len(parts) > 2:
                 kw["var_type"] = parts[2]
-            r = M.engines.use(parts[1], **kw)
-            info = M.engines.get_available_engines()[parts[1]]  # the library's own public registry
+            try:
+                r = M.engines.use(parts[1], **kw)
+            except M.EngineNotFoundError as e:
+                raise Violation("C13/known-name-refused", f"{where}: use({parts[1]!r}) raised EngineNotFoundError: {e}")
+            info = M.engines.get_available_engines().get(parts[1]) or {"module": KNOWN[parts[1]][0], "class": KNOWN[parts[1]][1]}
             if type(r).__module__ != info["module"] or type(r).__name__ != info["class"]:
                 raise Violation("C13/use-name-wrong-class", f"{where}: use({parts[1]!r}) returned {type(r).__module__}.{type(r).__name__}")
             if parts[1] == "casadi" and r.sym_type is not getattr(cs, kw.get("sym_type", "SX")):
@@ -412,6 +437,66 @@ class Session:
             self.res.probes["spy_selected_during_query"] += 1
         return "ok"
 
+    def do_listing(self, op, i):
+        """A caller reads the table of available engines and edits *its* copy."""
+        d = self.M.engines.get_available_engines()
+        if set(d) != set(KNOWN):
+            raise Violation("C13/listing-changed", f"op#{i}: get_available_engines() lists {sorted(d)}")
+        mut = op["mut"]
+        if mut == "clear":
+            d.clear()
+        elif mut.startswith("pop:"):
+            d.pop(mut[4:], None)
+        else:
+            d["np"] = {"module": "sym_metanet.engines.numpy", "class": "Engine"}
+        self.res.faults["caller_mutates_listing"] += 1
+        return "ok"
+
+    def do_elem_after(self, op, i):
+        """After a complete NumPy step: step ONE link through its public method with a
+        caller-defined explicit engine (distinguishable flow law), without re-initialising.
+        Reference: the same link stepped with that engine on a twin that was initialised with
+        the same numbers and never saw the other engine."""
+        last = getattr(self, "last_step", None)
+        if last is None or last[0] != "numpy":
+            return "skipped"
+        kind, sop = last
+        l = op["el"]
+        if l not in self.refs:
+            return "skipped"
+        where = f"op#{i} link.step(engine=<caller-defined>)"
+        EX = make_engine_x()
+        rest = {k: v for k, v in sop["opts"].items() if not k.startswith("positive_init")}
+        flags_init = {k: v for k, v in sop["opts"].items() if k.startswith("positive_init")}
+        for f in ("positive_next_speed", "positive_next_density", "positive_next_queue"):
+            rest.setdefault(f, False)
+        hits0 = {k: sum(s.hits.values()) for k, s in self.spies.items()}
+        try:
+            self.U.obj(l).step(net=self.net, engine=EX, **rest)
+        except Exception as e:
+            raise Violation("C13/step-raised:explicit", f"{where}: raised {type(e).__name__}: {str(e)[:200]}")
+        hits1 = {k: sum(s.hits.values()) for k, s in self.spies.items()}
+        if hits1 != hits0:
+            raise Violation("C13/selected-engine-used-despite-explicit", f"{where}: a spy engine was used")
+        got = {k: dyn.numeric_bytes(v) for k, v in self.U.obj(l).next_states.items()}
+
+        def twin():
+            U2, net2 = dyn.build(self.uspec, self.build_ops)
+            ic2 = self.init_for(U2, sop, "numpy")
+            for el in net2.elements:
+                el.init_vars(init_conditions=ic2.get(el), engine=EX, **flags_init)
+            U2.obj(l).step(net=net2, engine=EX, **rest)
+            return {k: dyn.numeric_bytes(v) for k, v in U2.obj(l).next_states.items()}
+
+        exp = self.neutral("numpy", twin)
+        if got != exp:
+            raise Violation("C13/result-differs:caller-defined-engine",
+                            f"{where}: next state of {l} is not what the passed engine computes from the current states")
+        self.res.probes["elem_step_with_caller_defined_engine"] += 1
+        self.last_step = None
+        self.last_sym = None
+        return "ok"
+
     def run(self):
         res = self.res
         ops = self.trace["ops"]
@@ -428,6 +513,10 @@ class Session:
                     outcome = self.do_compile(op, i)
                 elif k == "query":
                     outcome = self.do_query(op, i)
+                elif k == "listing":
+                    outcome = self.do_listing(op, i)
+                elif k == "elem_after":
+                    outcome = self.do_elem_after(op, i)
                 else:
                     raise core.HarnessError(f"unknown op {k}")
             except Violation as v:
@@ -484,8 +573,12 @@ def generate(prop: str, run_seed: int, tier: str = "quick") -> dict:
             ops.append({"op": "use", "what": rng.choice(USES)})
         elif r < 0.8:
             ops.append(gen_step(rng, cfg, tier))
-        elif r < 0.9:
+        elif r < 0.87:
             ops.append({"op": "compile", "compact": rng.choice([0, 1, 2]), "pt": rng.getrandbits(16)})
+        elif r < 0.92:
+            ops.append({"op": "listing", "mut": rng.choice(["clear", "pop:casadi", "pop:numpy", "add:np"])})
+        elif r < 0.96:
+            ops.append({"op": "elem_after", "el": rng.choice([l for _, l, _ in topo["links"]])})
         else:
             ops.append({"op": "query", "T": round(rng.uniform(8, 12) / 3600, 8)})
     # quiescent: one undisturbed explicit step against a selected spy, one default step
@@ -521,6 +614,7 @@ TIERS = {
         "thorough": {"runs": 150000, "selftest": 48, "chunk": 400, "wall_cap": 3300, "run_timeout": 120,
                      "expect_probes": ["switch_engine", "spy_selected_during_explicit_step", "spy_default_step",
                                        "spy_selected_during_compile", "spy_selected_during_query", "use_bad_refused",
+                                       "caller_mutates_listing", "elem_step_with_caller_defined_engine",
                                        "use_name", "use_inst", "use_spy"]
                      + [f"pair:{a}->{b}" for a in ENG_KINDS for b in ENG_KINDS]},
     }
